@@ -7,6 +7,7 @@ R2 writers of fragsize: constants, or a value tested >= 2
 R3 fragment numbering: ++ exactly with an accepted ack, 0 at packet start
 R4 the last-fragment bit is `len == offset + n` for the same n
 """
+import re
 from iosa import ir, guard, lin as L, fieldinv, sym, bits
 from iosa.ir import sk, pp, cval, apath
 from iosa.facts import AnalysisBroken
@@ -133,6 +134,24 @@ def run(P, chk, tier):
     r1 = chk.rule("C15.R1", "fragment length bounded by fragsize",
                   "in the sender, the length n copied to pkt+2 and sent as n+2 satisfies n <= users[u].fragsize (or "
                   "n == 0) on every path; n >= 0 follows from R0 and R2", "E1 with the MIN-lowering rule + E8", floor=3)
+    # what R0 and R2 have established may be used where the sender compares a length in an unsigned type
+    saved_ax = (list(guard.AXIOM_BOUNDS), list(guard.AXIOM_FORMS))
+    if inv_ok and chk.rules[r2]["sites"] and all(s_.ok for s_ in chk.rules[r2]["sites"]):
+        guard.AXIOM_BOUNDS.append((re.compile(r"^users\[[^\]]+\]\.fragsize$"), 0, None))
+        guard.AXIOM_BOUNDS.append((re.compile(r"^users\[[^\]]+\]\.outpacket\.(offset|sentlen)$"), 0, None))
+        rxf = re.compile(r"^(users\[[^\]]+\]\.outpacket)\.(len|offset|sentlen)$")
+
+        def sendstate(at, c):
+            # len - offset [- sentlen] + c >= 0 for one and the same user
+            if c < 0 or not at:
+                return False
+            ms = [rxf.match(k) for k in at]
+            if not all(ms) or len({m.group(1) for m in ms}) != 1:
+                return False
+            co = {m.group(2): at[m.group(0)] for m in ms}
+            return co.get("len") == 1 and co.get("offset") == -1 and co.get("sentlen", -1) == -1 and set(co) <= {"len", "offset", "sentlen"}
+        guard.AXIOM_FORMS.append(sendstate)
+        E = guard.Engine(P)
     an = E.analysis(send)
     uparam = send.params[1]["ref"]["name"] if len(send.params) > 1 else "userid"
     fkey = "users[%s].fragsize" % uparam
@@ -177,6 +196,9 @@ def run(P, chk, tier):
              "len - offset >= sentlen >= 0 by the proven invariant and fragsize >= 2 by R2, so the unsigned comparison "
              "inside MIN(datalen, sizeof(pkt)-2) cannot turn a negative length into 4094" if inv_ok else
              "the send-state invariant is not established, so a negative length could defeat the clamp")
+
+    guard.AXIOM_BOUNDS[:], guard.AXIOM_FORMS[:] = saved_ax
+    E = guard.Engine(P)
 
     # ------------------------------------------------------------------ R3
     r3 = chk.rule("C15.R3", "fragment numbering",
@@ -254,14 +276,13 @@ def numbering(P, chk, r3, units, ack, start):
                 tgt = pp(sk(x["a"][0]))
             elif x.get("k") == "Un" and x["op"] in C.INCDEC:
                 tgt = pp(sk(x["a"][0]))
-            if tgt == K["offset"] and not (x.get("k") == "Bin" and x["op"] == "=" and cval(sk(x["a"][1])) is not None):
-                # the ack is being accepted here: which facts hold?
+            if tgt in (K["offset"], K["sentlen"], K["fragment"], K["len"]) and "accepted" not in st.user:
+                # the first change to the send state: the ack is being accepted here: which facts hold?
                 eqs = {}
                 for nm, (a_, b_) in (("seqno", (K["seqno"], dseq)), ("fragment", (K["fragment"], dfrag))):
                     fa = L.sub(self2.lin(_ref(a_), st), self2.lin(_ref(b_), st))
                     eqs[nm] = self2.implied(st, fa) and self2.implied(st, ({k: -v for k, v in fa[0].items()}, -fa[1]))
                 st.user["accepted"] = eqs
-                st.user["adv"] = self2.lin(x["a"][1], st) if x.get("k") == "Bin" and x["op"] == "+=" else None
                 st.log.append(("accept", x))
             if tgt == K["fragment"] and st.user.get("started"):
                 st.user["touched_after_start"] = x
@@ -297,10 +318,12 @@ def numbering(P, chk, r3, units, ack, start):
         chk.site(r3, ack, line, "ack accepted only for the outstanding fragment", bool(okm),
                  "under seqno == %s and fragment == %s" % (dseq, dfrag) if okm else
                  "offset is advanced on a path that has not established seqno == %s and fragment == %s (%s)" % (dseq, dfrag, acc))
-        adv = st.user.get("adv")
-        okadv = adv == ({K["sentlen"]: 1}, 0)
-        chk.site(r3, ack, line, "offset advances by sentlen", okadv, "offset += %s" % L.show(adv))
         done = st.env.get(K["len"]) == ({}, 0) or st.user.get("started")
+        if not done:
+            # the packet continues: the new offset is the old one plus what was sent last, in the values on entry
+            off = st.env.get(K["offset"], ({K["offset"]: 1}, 0))
+            okadv = off == ({K["offset"]: 1, K["sentlen"]: 1}, 0)
+            chk.site(r3, ack, line, "offset advances by sentlen", okadv, "offset at exit = %s (values on entry)" % L.show(off))
         if done:
             ok = (delta in (0, 1)) or st.user.get("started")
             chk.site(r3, ack, line, "accepted ack, packet finished", bool(ok), "fragment delta %s%s" % (
